@@ -76,6 +76,11 @@ pub fn min_cases(kind: &'static str, tier: &str, rng: &mut Rng, rep: &mut Report
         "all strings over {{A,C,G,T,N}} of length 0..={} for (w,m) in {:?}",
         maxlen, SMALL_WM
     ));
+    // one very long clean sequence
+    {
+        let s = gen::clean_seq(rng, 66_000, gen::Flavor::Uniform);
+        cases.push(Case::new(kind, &[25.min(wmax), 11], &s, "long-clean"));
+    }
     let n = if tier == "thorough" { 120_000 } else { 6_000 };
     for _ in 0..n {
         let (mut w, m) = wm_random(rng);
